@@ -162,6 +162,10 @@ func UnmarshalWithChecksum(data []byte, src, dest net.IP) (*Header, error) {
 
 func (hdr *Header) UnmarshalWithChecksum(data []byte, src, dest net.IP) error {
 	err := hdr.Unmarshal(data)
+	if err != nil {
+		// a segment that does not parse must not be processed as "bad checksum only"
+		return err
+	}
 
 	checksum := csum(data, to4byte(src.String()), to4byte(dest.String()))
 	if checksum != hdr.Checksum {
@@ -183,6 +187,10 @@ func (hdr *Header) String() string {
 // why EOF on ubuntu with 22?
 // https://github.com/google/gopacket/blob/master/layers/tcp.go<Paste>
 func (hdr *Header) Unmarshal(data []byte) error {
+	if len(data) < 20 {
+		return fmt.Errorf("TCP segment of %d bytes is shorter than a TCP header", len(data))
+	}
+
 	hdr.Source = binary.BigEndian.Uint16(data[0:2])
 	hdr.Destination = binary.BigEndian.Uint16(data[2:4])
 	hdr.SeqNum = binary.BigEndian.Uint32(data[4:8])
@@ -228,6 +236,10 @@ Loop:
 		case optionKindNop: // 1 byte padding
 			opt.OptionLength = 1
 		default:
+			if len(data) < 2 {
+				return fmt.Errorf("TCP option kind %d without length byte", data[0])
+			}
+
 			opt.OptionLength = data[1]
 			if opt.OptionLength < 2 {
 				return fmt.Errorf("Invalid TCP option length %d < 2", opt.OptionLength)
